@@ -64,7 +64,9 @@ CATALOG = {
     "C08": {
         # the whole list of unregistered overridable functions / ufuncs / ufunc methods is probed in every run
         "drivers": [("dispatch", {"quick": 200, "thorough": 200}, {"total": 200}),
-                    ("dispatch", {"quick": 100, "thorough": 10000}, {})],
+                    ("dispatch", {"quick": 100, "thorough": 10000}, {}),
+                    # every registered function through its numpy spelling and its numpoly implementation (6 per trace)
+                    ("dispatch", {"quick": 60, "thorough": 3000}, {"registry": True})],
     },
     "C09": {
         "drivers": [("shape", {"quick": 800, "thorough": 30000}, {})],
